@@ -393,7 +393,8 @@ def build_file(spec):
     if spec.get("column_orders"):
         fmd["column_orders"] = [{"TYPE_ORDER": {}} for _ in leaves]
     if spec.get("kv"):
-        fmd["key_value_metadata"] = [{"key": k if isinstance(k, bytes) else k.encode(), "value": v if isinstance(v, bytes) else v.encode()} for k, v in spec["kv"]]
+        fmd["key_value_metadata"] = [dict({"key": k if isinstance(k, bytes) else k.encode()}, **({} if v is None else {"value": v if isinstance(v, bytes) else v.encode()}))
+                                     for k, v in spec["kv"]]      # (a value of None: a key without value, which the format allows)
     fb = CP.encode(fmd, "FileMetaData", idl)
     out += fb + struct.pack("<I", len(fb)) + b"PAR1"
     return bytes(out), fmd
